@@ -49,10 +49,39 @@ fn conflict_case(rng: &mut Rng) -> (String, bool, String, &'static str) {
             format!("2024/01/{:02} use\n    {}    5 CHF\n    Equity:Opening\n\n", day, name)
         }
     };
+    // Every declaration may carry further, harmless sub-lines around the alias lines under test:
+    // fresh aliases before / after them, a note, a comment.
+    let deco = std::cell::Cell::new(rng.next_u64());
+    let fresh = std::cell::Cell::new(0u32);
     let decl = |canon: &str, aliases: &[&str]| {
+        let bits = deco.get();
+        deco.set(bits.rotate_right(7));
+        let mut extra = || {
+            fresh.set(fresh.get() + 1);
+            if commodity {
+                format!("Xtra{}", ["A", "B", "C", "D", "E", "F", "G", "H"][fresh.get() as usize % 8])
+            } else {
+                format!("extra{}", fresh.get())
+            }
+        };
         let mut s = format!("{} {}\n", kw, canon);
-        for a in aliases {
+        if bits & 1 != 0 {
+            s.push_str("    note declared with care\n");
+        }
+        if bits & 2 != 0 {
+            s.push_str(&format!("    alias {}\n", extra()));
+        }
+        for (i, a) in aliases.iter().enumerate() {
+            if i > 0 && bits & 4 != 0 {
+                s.push_str("    ; and\n");
+            }
             s.push_str(&format!("    alias {}\n", a));
+        }
+        if bits & 8 != 0 {
+            s.push_str(&format!("    alias {}\n", extra()));
+        }
+        if bits & 16 != 0 {
+            s.push_str("    ; end of declaration\n");
         }
         s.push('\n');
         s
@@ -230,7 +259,7 @@ impl Check for C12 {
          random alias. Oracle (metamorphic): both spellings are accepted or both rejected, stored postings and balance report are identical, no alias string \
          appears in them; a sample compares `okane balance` / `okane register` stdout byte for byte. 1 of 5 cases (conflicts): 8 conflict shapes x account/commodity \
          (alias of a declared canonical, of a name canonical by use, canonical of a declared / used alias, alias equal to own canonical, second alias conflicting, \
-         conflict in a repeated declaration) must be rejected (the error type is counted, not judged), 4 control shapes must be accepted and resolve the alias. \
+         conflict in a repeated declaration; every declaration optionally decorated with a note, comments and further fresh aliases before / after the one under test) must be rejected (the error type is counted, not judged), 4 control shapes must be accepted and resolve the alias. \
          Non-trivial = a variant with at least one substitution, or a conflict ledger; distinct by text."
             .to_string()
     }
